@@ -201,14 +201,15 @@ def native_pow_consts(expr_args):
 #include <cstdio>
 #include <limits>
 template <typename RealScalar> void run(const char* tag) { typedef RealScalar Scalar; using std::pow;
-  const RealScalar eps = std::numeric_limits<RealScalar>::epsilon(); const RealScalar v = pow(%s);
+  using std::cbrt; using std::sqrt; using std::exp; using std::log;
+  const RealScalar eps = std::numeric_limits<RealScalar>::epsilon(); const RealScalar v = (%s);
   printf("%%s %%La\n", tag, (long double)v); }
 int main() { run<float>("SCALAR_FLOAT"); run<double>("SCALAR_DOUBLE"); run<long double>("SCALAR_LDOUBLE"); }
 ''' % expr_args
     open(os.path.join(d, "p.cpp"), "w").write(src)
     p = subprocess.run(["bash", "-c", "cd %s && g++ -O0 -std=c++11 p.cpp -o p && ./p; rm -rf %s" % (d, d)], capture_output=True, text=True)
     if p.returncode != 0:
-        raise X.ExtractionBreak("cannot evaluate pow(%s) natively: %s" % (expr_args, p.stderr[-300:]))
+        raise X.ExtractionBreak("cannot evaluate the eps23 initialiser `%s` natively: %s" % (expr_args, p.stderr[-300:]))
     vals = dict(l.split() for l in p.stdout.strip().split("\n"))
     _pow_cache[expr_args] = vals
     return vals
@@ -221,7 +222,7 @@ def pow_rule(defs_out):
         defs_out.append("".join("#if defined(%s)\n#define VERIF_POW_%d ((Scalar)%s%s)\n#endif\n" %
                                 (t, k, v, {"SCALAR_FLOAT": "f", "SCALAR_DOUBLE": "", "SCALAR_LDOUBLE": "L"}[t]) for t, v in vals.items()))
         return "VERIF_POW_%d" % k
-    return ("pow", r"(?<![\w.])pow\(([^;]*?)\)(?=\s*;)", _r, {"min": 1, "max": 1})
+    return ("eps23-init", r"(?<=eps23 = )([^;]+)(?=;)", _r, {"min": 1, "max": 1})
 
 
 def eps23_doc():
@@ -956,6 +957,8 @@ def compute_spec(gen, sort_post):
                        ("work bound (additive form): every factorization call is paid for by the budget, one call per restart plus the first",
                         "g_ops - old_ops <= g_budget && g_budget <= 2 * NMAX * (g_restarts + 1) && g_calls == g_restarts + 1"),
                        ("convergence flags were computed from the Ritz data that is returned (no stale flags)", "!(ret > 0) || S->st_conv == S->st_ritz"),
+                       ("the returned Ritz data comes from an eigen-decomposition made during this compute() (nothing left over from an earlier call is returned)",
+                        "S->st_ritz > old_clock_c && S->st_ritz <= g_clock"),
                        ("full factorization left behind", "S->m_fac.m_k == S->m_ncv && S->m_fac.g_valid_k == S->m_ncv"),
                        ("shapes preserved", SHAPES)] + [(c[0], c[1].replace("sort_rule", "sorting")) for c in sort_post if "old_" not in c[1] and "g_p" not in c[1] and "accepted" not in c[0]],
                  exc_post=[("counters only grow", "old_ops <= g_ops && 0 <= S->m_nmatop && S->m_nmatop <= g_ops"),
@@ -970,7 +973,7 @@ def compute_spec(gen, sort_post):
                  frame_inplace_mat=["S->m_ritz_vec"],
                  frame_objs=["S->m_ritz_est", "S->tag_est", "S->m_fac.m_fac_V.colbuf"] + (["S->m_fac.m_fac_H.colbuf"] if gen else []),
                  may_throw=[1, 2, 7],
-                 olds=[("Index", "old_ops", "g_ops")], real=hdr + ":compute")
+                 olds=[("Index", "old_ops", "g_ops"), ("Index", "old_clock_c", "g_clock")], real=hdr + ":compute")
 
 
 COMPUTE_GHOST = "Index g_calls;   /* ghost: factorization calls paid from the budget in the current compute() */\n"
@@ -1003,7 +1006,7 @@ def f_compute(gen, report, sort_post):
            "__CPROVER_object_whole(S->m_ritz_vec.coltag), __CPROVER_object_whole(S->m_fac.m_fac_V.colbuf)%s) "
            "__CPROVER_loop_invariant(0 <= i && (i <= maxit || maxit < 0) && verif_exc == 0 && g_restarts == i && g_calls == i + 1) "
            "__CPROVER_loop_invariant(S->m_nmatop == g_ops && old_ops_l <= g_ops && g_ops - old_ops_l <= g_budget && 0 <= g_budget && g_budget <= 2 * NMAX * (i + 1)) "
-           "__CPROVER_loop_invariant(0 <= g_clock && g_clock <= old_clock_l + 2 + 3 * i) "
+           "__CPROVER_loop_invariant(0 <= g_clock && g_clock <= old_clock_l + 2 + 3 * i && S->st_ritz > old_clock_l && S->st_ritz <= g_clock) "
            "__CPROVER_loop_invariant(S->m_fac.m_k == S->m_ncv && S->m_fac.g_valid_k == S->m_ncv && S->m_fac.m_beta >= (Scalar)0 && %s) "
            "__CPROVER_loop_invariant(0 <= nconv && nconv <= S->m_nev && 0 <= S->cnt_conv && S->cnt_conv <= S->m_nev && (i == 0 || nconv == S->cnt_conv)) "
            "__CPROVER_decreases(maxit - i)") % ((", __CPROVER_object_whole(S->m_fac.m_fac_H.colbuf)" if gen else ""), SHAPES)
